@@ -1,6 +1,6 @@
 CONSTANTS
   Name = {"a", "b"}
-  Kind = {"skip", "btree"}
+  Kind = {"skip", "btree", "hash"}
   MaxV = 1
   MaxStops = 3
   MaxPage = 6
